@@ -90,7 +90,7 @@ MANIFEST = {
 }
 RULE = (
     'Scenario = generated workflow (<= 12 task instances; OR / offsets / '
-    'custom and optional outputs / absolute triggers; in one third of the '
+    'custom and optional outputs / absolute triggers; in half of the '
     'scenarios execution retry delays PT0S) + job outcome exceptions + '
     'command-return delays for the fair drain.  A reference child measures '
     'K = number of effect events of the uninterrupted run.  Quick: 12 kill '
@@ -1219,7 +1219,7 @@ def judge(spec, ref, records, chain, final, k=0, first_commit_k=0) -> list:
 @st.composite
 def cases(draw, tier='quick'):
     pf = {'max_tasks': 4, 'max_fcp': 3, 'min_tasks': 2}
-    with_retries = draw(st.integers(0, 2)) == 0
+    with_retries = draw(st.integers(0, 1)) == 1
     spec = draw(wfspecs(pf))
     n_inst = len(Model(spec).instances())
     if n_inst > 12:
@@ -1232,11 +1232,19 @@ def cases(draw, tier='quick'):
                 spec['retries'][t] = {'exec': draw(st.integers(1, 2)),
                                       'submit': 0}
     outcomes = draw(outcome_maps(spec, max_subs=2 if with_retries else 1))
+    if with_retries:
+        # make a retry actually happen: first job of some instance of a
+        # task with retries fails, the second does the default
+        insts = [(t, p) for (t, p) in Model(spec).instances()
+                 if t in spec['retries']]
+        if insts and draw(st.integers(0, 3)) != 0:
+            t, p = draw(st.sampled_from(insts))
+            outcomes[f'{p}/{t}'] = [{'final': 'failed'}, {'final': None}]
     ret_delays = draw(st.lists(st.integers(0, 2), max_size=4))
     case = {'spec': spec, 'outcomes': outcomes, 'ret_delays': ret_delays}
     # one kill point of some scenarios is also carried out by real process
     # death in a forked child and must leave the same durable state
-    if draw(st.integers(0, XFORK_ONE_IN[tier] - 1)) == 0:
+    if draw(st.integers(0, XFORK_ONE_IN[tier] - 1)) == 1:
         case['xfork'] = draw(st.integers(0, 400))
     if tier == 'thorough':
         case['kills'] = 'all'
